@@ -157,6 +157,22 @@ CHECKS = {
             "leaves' SQL and the skeletons' SQL - no per-function template is known to the oracle.",
             "Trusted: spec/SqlLex.tla, spec/SqlRead.tla (standard precedence, || between comparison and + -), the "
             "operator table BinName. floor/ceiling on the standard dialect: known finding (pinned templates)."),
+    "C08": ("DESIGN.md 6/C08",
+            "TLC generates filter pairs differing only in literal values (MC_C08); the (compiled SQL, parameter list) "
+            "pairs obtained from Django and the three SQLAlchemy entry styles are traces validated by TLC with the SQL "
+            "lexer automaton (Trace_Params)",
+            "Exhaustive over 35 skeletons x value pairs per literal kind (141 pairs) x 4 backends: identical token "
+            "sequence, no distinctive value in the text, every value in the parameter list.",
+            "Trusted: SqlLex.tla; compile(render_postcompile=True) / sql_with_params() as what the driver receives; "
+            "value_alts() spellings."),
+    "C12": ("DESIGN.md 6/C12",
+            "TLC plants every construct in every type-compatible position (MC_C12) and exports the field/literal "
+            "inventory; outcome class + emitted/compiled SQL + parameters of the 7 backends are traces validated by TLC "
+            "(Trace_Complete: allowed-outcome contract, well-formedness, no placeholder, every field and literal "
+            "represented)",
+            "Exhaustive over 920 (construct, position) filters x 7 backends + 17 unknown field names x 7 contexts on the "
+            "three SQLAlchemy entry points.",
+            "Trusted: SqlLex/SqlRead; needle spellings per literal kind; exception classification by class."),
 }
 
 PENDING = ["C01", "C02", "C03", "C04", "C06", "C07", "C08", "C09", "C10", "C11", "C12", "C13", "C14", "C15",
